@@ -232,7 +232,7 @@ def _enum_job(args):
 
 class C13(Prop):
     ID = "C13"
-    QUICK = 2500
+    QUICK = 5000
     THOROUGH = 40000
     CHUNK = 10000
     RULE = ("case = (format name registered in this installation, string).  Sources: 1-3 single-character edits "
@@ -279,6 +279,12 @@ class C13(Prop):
                 n = acc.extra.get("enumerated_strings", 0)
                 m = acc.extra.get("enumerated_members", 0)
                 acc.merge(sub)
+        if tier == "thorough":
+            from ..fuzz import c13_fuzz
+            corpus = [bytes([c13_fuzz.FORMATS.index(f) if f in c13_fuzz.FORMATS else 0, min(len(x), 80)]) + x.encode("utf-8")
+                      for f in ("ipv4", "ipv6", "date", "regex") for x in SEEDS[f][:8]]
+            harness.fuzz_stage(self, acc, "pbt.fuzz.c13_fuzz", seed, 400000, jobs=8, seeds_corpus=corpus,
+                               dictionary=c13_fuzz.DICT, max_len=128)
         acc.extra["enumeration_exhaustive_over"] = "token products for ipv4, date and ipv6 listed in pbt/props/c13.py"
 
 
